@@ -11,6 +11,8 @@ from ..runner import Divergence, Driver, Env, Outcome, Violation, diff_streams
 
 THEOREMS = [
     "C37_source_shape",
+    "C37_source_shape_sql",
+    "C37_source_shape_binding",
     "C37_invariant",
     "C37_active_was_picked_here",
     "C37_pick_is_last_pick_event",
@@ -33,7 +35,7 @@ THEOREMS = [
 ]
 EXPLANATION = (
     "Lean model M16 of llamactl's SQLite configuration: tables environments/profiles (profiles keyed by (name, api_url)), "
-    "settings current_environment_api_url/current_profile (a name only), the twelve service operations of "
+    "settings current_environment_api_url/current_profile (a name only), the service operations of "
     "EnvService/AuthService/ConfigManager that change them with their error branches, and a ghost field recording the "
     "latest select/create event together with the environment current at that moment. C37_invariant (induction over op "
     "lists): after every operation sequence the current environment is known or the default and the active profile is "
@@ -46,19 +48,39 @@ EXPLANATION = (
     "compiled model, comparing result, current environment, pointer, active profile, ghost and both tables after every op. "
     "Search: after every op on the real services - current environment stored or default; active profile belongs to the "
     "current environment, is a stored row, the latest select/create event was made while the current environment was "
-    "current, and this profile was itself picked at some time (the harness keeps its own record of the events)."
+    "current, and this profile was itself picked at some time (the harness keeps its own record of the events). "
+    "Extension: (T) C37_unique_ids (profile ids pairwise different after every history); C37_active_continuously_since_pick "
+    "(the active profile is the very row - same id - that the latest select/create event designated, that event happened while "
+    "its environment was current, and in every state since then this environment was current, this row was active and no "
+    "further select/create happened; C37_kept_means spells the recursive predicate out); C37_current_environment_real "
+    "(get_current_environment() never fabricates an environment: stored row or built-in default, third branch dead on all "
+    "reachable configurations); the token-refresh path refresh_to_db (update by id in any environment) is an operation of the "
+    "model; model M16b makes the binding of an AuthService a parameter (stepHeld; the fresh model is its diagonal, "
+    "C37_held_extends_fresh): C37_held_services_refuted (a witness with two operations through services bound to a "
+    "non-current environment activates a profile nobody picked there; replayed on the real services on every run), "
+    "C37_held_services_partial (if every select/create goes through a service of the then-current environment - stale services "
+    "only delete/update - the property holds, in the property's own words via pickedHere / C37_pickedHere_means; "
+    "C37_statement_fresh_services: for fresh services this is the statement already proved). (tie) C37_source_shape_sql: all 24 "
+    "SQL statements of ConfigManager as (method, verb, table, WHERE columns, SET/ORDER/LIMIT/literal key), regenerated; the "
+    "settings row of the current environment is never deleted; profiles are never addressed by name alone; ids unique "
+    "(migration 0002). C37_source_shape_binding: every AuthService call into an environment-taking ConfigManager method passes "
+    "self.env.api_url, current_auth_service() binds to the store's current environment read on every call, delete_profile "
+    "clears on the bare name. (K) new op kinds refresh|PID|UID|TOK and held|URL|<op>; held-service sequences. (S) new rules "
+    "from the harness's own event log: a profile becomes active only by a select/create event, a non-pick operation never "
+    "changes which row is active, and some event named the active profile through a service of its environment while current."
 )
 LEVEL_TEXT = "proof (invariant over all operation sequences) + per-op correspondence on the real SQLite-backed services"
 ASSUMPTIONS = [
-    "every profile operation runs on a fresh EnvService.current_auth_service() (an AuthService bound to the environment "
-    "current when the operation starts), as every CLI command does; a long-lived AuthService used across an environment "
-    "switch is outside the model",
+    "the property theorems (C37_invariant, ...) are about histories in which every profile operation runs on a fresh "
+    "EnvService.current_auth_service() (an AuthService bound to the environment current when the operation starts), as every "
+    "CLI command does; AuthService objects bound to another environment are modelled (M16b): with them the statement is "
+    "refuted (C37_held_services_refuted) unless they are used for delete/update only (C37_held_services_partial)",
     "update_profile is exercised with changes that keep (id, name, api_url) (api_key/api_key_id/device_oidc), the only "
     "use in the CLI; renaming or moving a profile through the raw ConfigManager API is outside the model",
     "one process at a time on the database (no concurrent llamactl invocations); each operation's SQLite transactions "
     "are taken as atomic",
-    "the settings row current_environment_api_url always exists (seeded by migration 0001, never deleted): observed on "
-    "every run, not proved",
+    "the settings row current_environment_api_url always exists: seeded by migration 0001 (C37_source_shape) and no statement "
+    "of ConfigManager deletes it (C37_source_shape_sql); a database edited by other tools is outside the model",
     "SQLite TEXT equality and ORDER BY name (BINARY collation) are modelled as code-point equality/order of the strings; "
     "strings with NUL or lone surrogates are not generated",
     "network side of the services (probe/auto_update_env version fetch, remote API-key revocation in delete_profile, "
@@ -69,6 +91,7 @@ TRUSTED_EXTRA = [
     "harness/cliconfig.py: name-only stubs for llama_agents.cli.auth.client, llama_agents.core.client.manage_client, "
     "llama_agents.core.schema(.projects) (network clients absent from the sandbox); LLAMACTL_CONFIG_DIR temp dirs",
     "harness/gen/cliconfig.py (AST/SQL extraction into WfModel/GenCliConfig.lean)",
+    "harness/gen/cliconfig_sql.py (SQL statement shapes and AuthService call shapes into WfModel/GenCliConfigSql.lean)",
     "sqlite3 module / SQLite library of the runtime",
 ]
 
